@@ -23,7 +23,7 @@ CHATTER = ['\x1b[1;31mERROR\x1b[0m: no cursor theme', 'plain \x1b[0m reset', 'he
            '(EE) failed', 'a -> b', '[  12.345] wl_x@1.y(', 'éè unicode', 'x' * 200, '[]', '()',
            # characters that str.splitlines() takes for line ends but a file does not: form feed, vertical tab, FS, NEL, U+2028
            'page 1 of the report\x0cpage 2', 'v\x0btab', 'fs\x1cgs\x1drs\x1e.', 'nel\x85next', 'line\u2028separator\u2029.']
-GAPS = [0, 1, 7, 99, 100, 101, 500, 4999, 5000, 999999, 1000000, 1000001, 2500000, 123456]
+GAPS = [0, 1, 7, 49, 50, 51, 99, 100, 101, 500, 4999, 5000, 999949, 999950, 999962, 999999, 1000000, 1000001, 2500000, 123456]
 GAPS_DY = [0, 125000, 250000, 875000, 1000000, 1125000, 2000000]
 
 
@@ -391,7 +391,7 @@ class SessionGen:
         init = {'show': (r.random() < 0.8) if o['show'] is None else o['show'], 'hasf': False, 'hasb': False}
         if r.random() < o['with_init_filter']:
             init['hasf'] = True
-            init['f'] = mg.top()
+            init['f'] = mg.top() if r.random() < 0.8 else mrender.pat_full()      # (`*.*`: no restriction, spelled otherwise)
         return {'init': init, 'events': events}
 
 
